@@ -35,7 +35,7 @@ ENV.pop("RUSTFLAGS", None)  # the harness' .cargo/config.toml supplies --cfg reg
 # per property: time caps (s, per shard) and floors
 DEFAULT_CFG = {"quick_cap": 45, "thorough_cap": 900, "min_held": 1000, "min_distinct": 500}
 CFG = {
-    "C05": {"fuel": 20_000_000},
+    "C05": {"fuel": 2_000_000},
     "C06": {"fuel": 200_000_000},
     "C09": {"min_held": 200, "min_distinct": 100},
     "C10": {"min_held": 200, "min_distinct": 100},
@@ -110,6 +110,9 @@ def matches_signature(v, finding, prop):
     facts = v.get("facts", {})
     for k, want in sig.get("facts", {}).items():
         if facts.get(k) != want:
+            return False
+    for k, least in sig.get("min_facts", {}).items():
+        if not isinstance(facts.get(k), int) or facts.get(k) < least:
             return False
     any_of = sig.get("facts_any")
     if any_of and not any(facts.get(k) == want for k, want in any_of.items()):
@@ -305,7 +308,11 @@ def check(prop, tier, seed):
         if prop in f.get("properties", []) or f.get("property") == prop:
             for w in f.get("witnesses", []):
                 if w.get("property", prop) == prop:
-                    corpus.append(w["case"])
+                    case = dict(w["case"])
+                    rep = case.pop("pattern_repeat", None)
+                    if rep:
+                        case["pattern"] = rep["open"] * rep["depth"] + rep["body"] + rep["close"] * rep["depth"]
+                    corpus.append(case)
     corpus_path = os.path.join(outdir, "corpus.json")
     with open(corpus_path, "w") as f:
         json.dump(corpus, f)
